@@ -55,6 +55,9 @@ FAILING = [
 ]
 
 
+DST_ENDS = {"Europe/Berlin": 1635642000, "America/New_York": 1636264800, "Australia/Lord_Howe": 1617462000}
+
+
 class C12(Prop):
     ID = "C12"
     MODULE = "AwProofs.Props.C12"
@@ -120,9 +123,20 @@ class C12(Prop):
                     evs[b] = evs[b] + [[None, FUTURE + rng.randrange(0, 5) * SEC, rng.choice([0, SEC]), rng.choice(DATAS)]
                                        for _ in range(rng.randint(1, 2))]
                 w1 = FUTURE + rng.choice([0, 2, 10]) * SEC
+            off = rng.choice([0, 120, -300])
+            if rng.random() < 0.12:
+                # a window whose edges are wall-clock times of a zone with daylight saving, inside the hour that repeats
+                off = rng.choice(sorted(DST_ENDS))
+                base = DST_ENDS[off] * 1_000_000
+                for b in evs:
+                    evs[b] = [[None, base + rng.randrange(-7200, 7200) * 1_000_000, rng.choice([0, 60_000_000, 600_000_000]), rng.choice(DATAS)]
+                              for _ in range(rng.randint(1, 4))]
+                w0 = base + rng.randrange(-7200, 3600) * 1_000_000 + rng.choice([0, 1, 999, 500_000])
+                w1 = max(w0, base + rng.randrange(-3600, 7200) * 1_000_000 + rng.choice([0, 999, 500_000]))
+            first = rng.random() < 0.5
             for be in storelib.BACKENDS:
                 out.append(("program", {"backend": be, "events": evs, "prog": "\n".join(stmts), "start": w0, "end": w1,
-                                        "off": rng.choice([0, 120, -300]), "again_bucket": again_bucket}))
+                                        "off": off, "again_bucket": again_bucket, "program_first": first}))
         # more events inside the window than any internal limit (10 000)
         n = 10_001
         evs = {"b0": [[None, T0 + k * 1000, 1000, DATAS[k % 2]] for k in range(n)], "b1": [[None, T0, SEC, DATAS[0]]]}
@@ -168,7 +182,28 @@ class C12(Prop):
                 ds.create_bucket(b, "t", "c", "h", created=us_to_dt(T0), data={"k": [1]})
                 ds[b].insert([mk_event(e) for e in case["events"][b]])
             before = storelib.dump(store)
-            sd, ed = us_to_dt(case["start"], case["off"]), us_to_dt(case["end"], case["off"])
+            if isinstance(case["off"], str):
+                from zoneinfo import ZoneInfo
+
+                sd, ed = (us_to_dt(case[k], 0).astimezone(ZoneInfo(case["off"])) for k in ("start", "end"))
+            else:
+                sd, ed = us_to_dt(case["start"], case["off"]), us_to_dt(case["end"], case["off"])
+
+            def run_program():
+                ret = None
+                try:
+                    r = query2.query("q", case["prog"], sd, ed, ds)
+                    res = ["ok", type(r).__name__]
+                    if case["prog"].rstrip().endswith("RETURN = again;") and isinstance(r, list):
+                        ret = [ev_tuple(e) for e in r]
+                except Exception as e:
+                    res = ["err", err_kind(e)]
+                return res, ret, storelib.dump(store)
+
+            ran = None
+            if case.get("program_first"):
+                # the program is the first thing that reads this window: nothing has been read (or remembered) before it
+                ran = run_program()
             direct = {}
             for b in ("b0", "b1"):
                 direct[b] = {"get": [ev_tuple(e) for e in ds[b].get(-1, sd, ed)], "count": ds[b].get_eventcount(sd, ed)}
@@ -178,15 +213,7 @@ class C12(Prop):
                 r = query2.query("q", f'RETURN = query_bucket("{b}");', sd, ed, ds)
                 c = query2.query("q", f'RETURN = query_bucket_eventcount("{b}");', sd, ed, ds)
                 qb[b] = {"get": [ev_tuple(e) for e in r], "count": c}
-            ret = None
-            try:
-                r = query2.query("q", case["prog"], sd, ed, ds)
-                res = ["ok", type(r).__name__]
-                if case["prog"].rstrip().endswith("RETURN = again;") and isinstance(r, list):
-                    ret = [ev_tuple(e) for e in r]
-            except Exception as e:
-                res = ["err", err_kind(e)]
-            after = storelib.dump(store)
+            res, ret, after = ran if ran is not None else run_program()
             # what the store does NEXT must not depend on the reads and queries it has served: rewrite the newest event
             # here and on a twin store that was filled the same way and never read
             twin = None
